@@ -268,13 +268,15 @@ func (f *UnionFile) WriteString(s string) (n int, err error) {
 }
 
 func copyFile(base Fs, layer Fs, name string, bfh File) error {
-	// First make sure the directory exists
-	exists, err := Exists(layer, filepath.Dir(name))
+	// First make sure the directory exists; the name is cleaned first, or the "directory" of a
+	// name with a trailing separator would be the file itself
+	dir := filepath.Dir(filepath.Clean(name))
+	exists, err := Exists(layer, dir)
 	if err != nil {
 		return err
 	}
 	if !exists {
-		err = layer.MkdirAll(filepath.Dir(name), 0o777) // FIXME?
+		err = layer.MkdirAll(dir, 0o777) // FIXME?
 		if err != nil {
 			return err
 		}
